@@ -34,7 +34,7 @@ ChunkKinds ==
   \cup {<<"fnsize", k>> : k \in {"zero", "one", "minus1", "plus1", "edge", "over", "huge"}}
   \cup {<<"fn", k>> : k \in {"body", "term"}}
   \cup {<<"msglen", k>> : k \in {"zero", "max", "over", "huge", "diff"}}
-  \cup {<<"msg", k>> : k \in {"unterm", "fmtnul", "argcut", "pct", "longdir", "width", "star", "soft"}}
+  \cup {<<"msg", k>> : k \in {"unterm", "fmtnul", "argcut", "pct", "longdir", "longmod", "width", "star", "soft"}}
 NoChunk == <<0, "x", "x">>
 ChunkT == {NoChunk} \cup {<<j, rk[1], rk[2]>> : j \in {1, 2, -1}, rk \in ChunkKinds}
           \cup {<<0, "end", "magic">>, <<0, "end", "x">>}
